@@ -66,7 +66,10 @@ class S:
         self.toks = tuple(toks)
 
     def __repr__(self):
-        return f"S({str_text(self.toks)!r})"
+        return "S(" + ", ".join(repr(t) for t in self.toks) + ")"
+
+    def text(self):
+        return str_text(self.toks)
 
     def __eq__(self, o):
         return isinstance(o, S) and self.toks == o.toks
@@ -288,6 +291,8 @@ class World:
                 return any(_eq(args[0], py_value(x)) for x in desc[1])
             if k == "truthy":
                 return bool(args[0])
+            if k == "eq2":
+                return _eq(args[0], args[1])
             raise AssertionError(desc)
         impl.__name__ = f"fn{fid}"
         impl.__qualname__ = f"fn{fid}"
@@ -362,6 +367,8 @@ def coq_fdesc(d):
         return "(FIn [" + "; ".join(coq_value(x) for x in d[1]) + "])"
     if k == "truthy":
         return "FTruthy"
+    if k == "eq2":
+        return "FEq2"
     raise TypeError(d)
 
 
@@ -480,6 +487,8 @@ class Builder:
             return L.evaluatable_dict({py_value(v): self.build(x) for v, x in e[1]})
         if k == "map":
             return L.Map(self.build(e[1]), {key_text(kk): self.build(x) for kk, x in e[2]})
+        if k == "tolist":
+            return self.build(e[1]).apply(list)
         if k == "with":
             return L.WithOptions(self.build(e[3]), py_json(e[2]), force=e[1])
         if k == "cached":
@@ -588,6 +597,8 @@ class CoqPrinter:
         if k == "map":
             its = "[" + "; ".join(f"({coq_key(kk)}, {self.expr(x)})" for kk, x in e[2]) + "]"
             return f"(EMap {self.expr(e[1])} {its})"
+        if k == "tolist":
+            return f"(EApply {self.expr(e[1])} (EValue (VF B_LIST [] [])))"
         if k == "with":
             return f"(EWith {'true' if e[1] else 'false'} {coq_dict(e[2])} {self.expr(e[3])})"
         if k == "cached":
@@ -682,7 +693,7 @@ class _LogCapture(pylogging.Handler):
         self.world.calls.append("emit")
 
 
-def run_impl(scn, want_objects=False):
+def run_impl(scn, want_objects=False, raw_out=None):
     """returns the list of observation lines (one per op), same format as EvalRun.run_op"""
     import labrea.cache
     import labrea.logging
@@ -726,9 +737,11 @@ def run_impl(scn, want_objects=False):
                     return _inner(req)
                 st.enter_context(runtime.handle(LogRequest, rec))
                 obj = objs[i]
+                raw = None
                 try:
                     if m == "evaluate":
-                        r = "ok:" + show(force(obj.evaluate(po)))
+                        raw = force(obj.evaluate(po))
+                        r = "ok:" + show(raw)
                     elif m == "validate":
                         obj.validate(po)
                         r = "ok:()"
@@ -742,6 +755,8 @@ def run_impl(scn, want_objects=False):
                     c, ee = classify(exc)
                     r = f"err:{c}:{'T' if ee else 'F'}"
             lines.append(r + "|" + " ".join(w.calls))
+            if raw_out is not None:
+                raw_out.append(raw)
     finally:
         root.removeHandler(cap)
         root.setLevel(old_level)
